@@ -119,9 +119,7 @@ func c02genProg(rng *core.Rng, id string) (*hs.Prog, string, bool) {
 
 func c02err(rng *core.Rng) *hs.ErrSpec {
 	spec := &hs.ErrSpec{Base: core.Pick(rng, []string{"boom", "", " ", rng.Text(1+rng.Intn(60), true), strings.Repeat("long message ", 400), "multi\nline\terror 100%"})}
-	if spec.Base == "" {
-		spec.Base = "e"
-	}
+	// (an empty error text is legitimate: the message field is then empty)
 	for _, k := range c17kinds {
 		if rng.Bool() {
 			spec.Wraps = append(spec.Wraps, c17wrap(k, rng, rng.Intn(4)))
